@@ -91,6 +91,47 @@ def run(chk):
     chk.cov["disagreements_checked"] = ndis
     # the larger fragment (banks, nested symbols): Model/Resolver2.v
     ext_resolver2.run_streams(chk, quick, which=("correspondence",))
+    fn_certificate_stream(chk, quick, R)
+
+
+def fn_certificate_stream(chk, quick, R):
+    """programs with user-function calls (outside the resolver model): the implementation's result for the program WITH
+    calls must pass the extracted certificate of the same program with every call replaced by its body (a call means
+    its body under the parameter bindings: C17) -- i.e. recomputing every item from the final symbol values reproduces
+    the emitted bits, also for items whose value goes through a function"""
+    import c17_gen
+    rng = chk.rng.fork("c02-fn")
+    cases = []
+    tries = 0
+    want = 150 if quick else 1500
+    while len(cases) < want and tries < 20 * want:
+        tries += 1
+        tc, te, pe, feats = c17_gen.gen_fn_case(rng)
+        if 'macro-item' in feats:
+            continue
+        cases.append((tc, pe, rng.choice([5, 10, 30]), rng.chance(0.7), rng.chance(0.5), feats))
+    ia = R.impl([(tc, b, s, m) for (tc, pe, b, s, m, feats) in cases])
+    lines, idx = [], []
+    for i, ((tc, pe, b, s, m, feats), a) in enumerate(zip(cases, ia)):
+        f = a.split("\t")
+        if f[0] == "OK":
+            lines.append(pe.model_line(b, m) + "\tcert\t" + ((f[4] if len(f) > 4 else "") + (f[5] if len(f) > 5 else "")) + "\t" + f[1])
+            idx.append(i)
+        elif f[0] != "ERR":
+            chk.violation("implementation crashed or was inconsistent on a program with function calls (%s)" % f[0],
+                          {"kind": "fn-certificate", "program": tc, "budget": b, "static_opt": s, "matcher_opt": m, "impl": a[:1000]})
+    ca = vlib.run_lines([R.model], lines)
+    nfail = 0
+    for i, c in zip(idx, ca):
+        tc, pe, b, s, m, feats = cases[i]
+        chk.nontriv(tc)
+        if c != "CERT-OK":
+            nfail += 1
+            chk.violation("the implementation's result for a program with function calls is not self-consistent: recomputing every item "
+                          "(calls replaced by their bodies) from its final symbol values does not reproduce the emitted bits",
+                          {"kind": "fn-certificate", "program": tc, "substituted": pe.text(), "budget": b, "static_opt": s, "matcher_opt": m,
+                           "impl": ia[i][:2000], "certificate": c, "features": sorted(feats)})
+    chk.count("fn_certificates_on_impl_output", len(idx), programs=len(cases))
 
 
 def replay(chk, rep):
